@@ -9,21 +9,79 @@
    Every method is shown to succeed from [inv] (no Err: no access outside the own allocation /
    the attached range, no write into foreign memory), to re-establish [inv] and to expose
    exactly the expected bytes.  The world-level statements follow by case analysis on the op. *)
-From Coq Require Import ZArith List Bool Arith Lia.
+From Coq Require Import ZArith NArith List Bool Arith Lia.
 From Common Require Import ListAux.
 From Buffer Require Import BufferSpec BufferModel BufferLists.
 Import ListNotations.
+
+(* ---- sizes: what fits, what new[] answers, sums that do not wrap --------------------------- *)
+
+(* n data bytes and their terminator fit into one object *)
+Notation small n := (N.of_nat n < max_bytes)%N (only parsing).
+
+Lemma fitsN_true n : fitsN n = true <-> (n < max_bytes)%N.
+Proof. unfold fitsN. apply N.ltb_lt. Qed.
+
+Lemma fitsN_false n : fitsN n = false <-> (max_bytes <= n)%N.
+Proof. unfold fitsN. apply N.ltb_ge. Qed.
+
+Lemma fits_small n : fits n = true <-> small n.
+Proof. unfold fits. apply fitsN_true. Qed.
+
+Lemma allocate_ok c : (c < max_bytes)%N -> allocate c = Ok (new_array (N.to_nat c + 1)).
+Proof.
+  intro H. unfold allocate, succ_usize, new_bytes, alloc_limit.
+  assert (E1 : (c =? usize_max)%N = false) by (apply N.eqb_neq; unfold max_bytes, usize_max in *; lia).
+  rewrite E1.
+  assert (E2 : (c + 1 =? 0)%N = false) by (apply N.eqb_neq; lia).
+  rewrite E2.
+  assert (E3 : (c + 1 <=? max_bytes)%N = true) by (apply N.leb_le; lia).
+  rewrite E3. do 2 f_equal. lia.
+Qed.
+
+(* every request that does not fit fails, (usize)-1 included *)
+Lemma allocate_fail c : (max_bytes <= c)%N -> allocate c = Err AllocFail.
+Proof.
+  intro H. unfold allocate, succ_usize, new_bytes, alloc_limit.
+  destruct (c =? usize_max)%N eqn:E1.
+  - cbn [N.eqb]. replace (c <=? max_bytes)%N with false; [reflexivity|].
+    symmetry. apply N.leb_gt. apply N.eqb_eq in E1. unfold max_bytes, usize_max in *. lia.
+  - assert (E2 : (c + 1 =? 0)%N = false) by (apply N.eqb_neq; lia).
+    rewrite E2. replace (c + 1 <=? max_bytes)%N with false; [reflexivity|].
+    symmetry. apply N.leb_gt. lia.
+Qed.
+
+Lemma add_usize_small a b : small a -> small b -> add_usize (N.of_nat a) (N.of_nat b) = N.of_nat (a + b).
+Proof.
+  unfold add_usize. intros Ha Hb. rewrite N.mod_small; [lia|].
+  unfold max_bytes, usize_max in *. lia.
+Qed.
+
+(* before fixes/C08/10 the request was new char[capacity + 1]: for capacity = 2^64-1 a block of 0 cells *)
+Lemma allocate_wrapping_refuted_lemma :
+  exists c, (max_bytes <= c)%N /\ allocate_wrapping c = Ok [] /\ wr [] 0 [Some 0%Z] = Err OutOfBounds.
+Proof.
+  exists usize_max. split; [unfold max_bytes, usize_max; lia|]. split; reflexivity.
+Qed.
+
+(* "the request fits -> the call succeeds with P; it does not fit -> the call fails as an allocation" *)
+Definition okun (need : N) (r : res buf) (P : buf -> Prop) : Prop :=
+  if fitsN need then exists b', r = Ok b' /\ P b' else r = Err AllocFail.
+
+Ltac okun_cases F :=
+  unfold okun;
+  match goal with |- context [fitsN ?n] => destruct (fitsN n) eqn:F; [apply fitsN_true in F | apply fitsN_false in F] end.
 
 (* ---- invariant and abstraction ---------------------------------------------------------- *)
 
 Definition inv (b : buf) : Prop :=
   match own b with
   | Some a => wb b = BOwn /\ length a = capf b + 1 /\ start b <= stop b /\ stop b <= capf b
-              /\ nth_error a (stop b) = Some (Some 0%Z)
+              /\ nth_error a (stop b) = Some (Some 0%Z) /\ small (capf b)
   | None => capf b = 0 /\
             match wb b with
             | BOwn => False
-            | BReg r => start b <= stop b /\ stop b <= length r
+            | BReg r => start b <= stop b /\ stop b <= length r /\ small (length r)
             | BCap _ => start b = 0 /\ stop b = 0
             end
   end.
@@ -46,10 +104,10 @@ Lemma rd_win_prefix b k : inv b -> k <= stop b - start b -> rd_win b (start b) k
 Proof.
   intros I Hk. unfold inv in I. unfold rd_win, view.
   destruct (own b) as [a|] eqn:Eo.
-  - destruct I as (Hw & Hl & Hse & Hec & Ht). rewrite Hw.
+  - destruct I as (Hw & Hl & Hse & Hec & Ht & Hsm). rewrite Hw.
     rewrite rd_ok by lia. f_equal. list_eq.
   - destruct I as (Hc & I). destruct (wb b) as [|r|v] eqn:Ew; [contradiction| |].
-    + destruct I as [Hse Her].
+    + destruct I as (Hse & Her & Hsr).
       replace (start b + k <=? length r) with true by (symmetry; apply Nat.leb_le; lia).
       f_equal. unfold known. list_eq.
     + destruct I as [Hs He]. rewrite Hs.
@@ -60,9 +118,9 @@ Lemma view_length b : inv b -> length (view b) = stop b - start b.
 Proof.
   intros I. unfold inv in I. unfold view.
   destruct (own b) as [a|] eqn:Eo.
-  - destruct I as (Hw & Hl & Hse & Hec & Ht). len. reflexivity.
+  - destruct I as (Hw & Hl & Hse & Hec & Ht & Hsm). len. reflexivity.
   - destruct I as (Hc & I). destruct (wb b) as [|r|v] eqn:Ew; [contradiction| |].
-    + destruct I as [Hse Her]. len. reflexivity.
+    + destruct I as (Hse & Her & Hsr). len. reflexivity.
     + destruct I as [Hs He]. cbn [length]. lia.
 Qed.
 
@@ -86,14 +144,14 @@ Proof. intro I. rewrite exposed_inv by exact I. apply view_length; exact I. Qed.
 (* ---- the common tail of every owning branch: write the terminator ------------------------ *)
 
 Lemma finish_own a s e c :
-  length a = c + 1 -> s <= e -> e <= c ->
+  length a = c + 1 -> s <= e -> e <= c -> small c ->
   exists b', set_terminator (mkbuf (Some a) BOwn s e c) = Ok b' /\ inv b' /\
              exposed b' = slice a s (e - s) /\ owns b' = true /\ capf b' = c /\ start b' = s /\ stop b' = e.
 Proof.
-  intros Hl Hse Hec.
+  intros Hl Hse Hec Hsm.
   exists (mkbuf (Some (splice a e [Some 0%Z])) BOwn s e c).
   assert (I : inv (mkbuf (Some (splice a e [Some 0%Z])) BOwn s e c)).
-  { unfold inv; cbn [own wb start stop capf]. repeat split; try lia.
+  { unfold inv; cbn [own wb start stop capf]. repeat split; try lia; try exact Hsm.
     - len. exact Hl.
     - nth_at. }
   split; [|split; [exact I|split; [|repeat split]]].
@@ -116,28 +174,57 @@ Proof.
   intro I. unfold inv in I. unfold terminate_if_owned, set_terminator, wr_win.
   destruct b as [o w s e c]; cbn [own wb start stop capf] in *.
   destruct o as [a|]; [|reflexivity].
-  destruct I as (Hw & Hl & Hse & Hec & Ht). subst w.
+  destruct I as (Hw & Hl & Hse & Hec & Ht & Hsm). subst w.
   rewrite wr_ok by (cbn [length]; lia). cbn [bind]. rewrite splice_same by exact Ht. reflexivity.
 Qed.
 
 (* ---- assign / operator= ------------------------------------------------------------------ *)
 
-Lemma assign_ok b d : inv b -> exists b', assign_ b d = Ok b' /\ inv b' /\ exposed b' = d.
+Lemma copy_in_ok a d w s e c :
+  length a = c + 1 -> length d <= c -> small c ->
+  exists b', copy_in (mkbuf (Some a) w s e c) d = Ok b' /\ inv b' /\ exposed b' = d.
+Proof.
+  intros Hl Hd Hsm. unfold copy_in; cbn [own wb start stop capf].
+  rewrite wr_ok by lia. cbn [bind].
+  destruct (finish_own (splice a 0 d) 0 (length d) c) as (b' & H1 & H2 & H3 & _);
+    [len; lia | lia | lia | exact Hsm |].
+  exists b'. split; [exact H1|split; [exact H2|]]. rewrite H3. list_eq.
+Qed.
+
+(* the window of a Buffer that satisfies the invariant fits *)
+Lemma inv_small b : inv b -> small (size b).
+Proof.
+  unfold inv, size. destruct (own b).
+  - intros (_ & _ & _ & Hec & _ & Hsm). lia.
+  - intros (_ & I). destruct (wb b); [contradiction| |].
+    + destruct I as (_ & Her & Hsr). lia.
+    + destruct I as [_ He]. rewrite He. unfold max_bytes. lia.
+Qed.
+
+Lemma inv_cap_small b : inv b -> small (capf b).
+Proof.
+  unfold inv. destruct (own b).
+  - intros (_ & _ & _ & _ & _ & Hsm). exact Hsm.
+  - intros (Hc & _). rewrite Hc. unfold max_bytes. lia.
+Qed.
+
+Lemma assign_ok b d : inv b -> okun (N.of_nat (length d)) (assign_ b d) (fun b' => inv b' /\ exposed b' = d).
 Proof.
   intro I. unfold assign_.
   destruct (capf b <? length d) eqn:E.
-  - unfold copy_in; cbn [own wb start stop capf].
-    rewrite wr_ok by (len; lia). cbn [bind].
-    destruct (finish_own (splice (new_array (length d + 1)) 0 d) 0 (length d) (length d)) as (b' & H1 & H2 & H3 & _);
-      [len; lia | lia | lia |].
-    exists b'. split; [exact H1|split; [exact H2|]]. rewrite H3. list_eq.
-  - apply Nat.ltb_ge in E. pose proof I as I0. unfold inv in I.
+  - okun_cases F.
+    + rewrite allocate_ok by exact F. cbn [bind]. rewrite Nat2N.id.
+      apply copy_in_ok; [len; lia | lia | exact F].
+    + rewrite allocate_fail by exact F. reflexivity.
+  - apply Nat.ltb_ge in E.
+    assert (F : fitsN (N.of_nat (length d)) = true).
+    { apply fitsN_true. pose proof (inv_cap_small b I) as Hc. lia. }
+    unfold okun. rewrite F.
+    pose proof I as I0. unfold inv in I.
     destruct (own b) as [a|] eqn:Eo.
-    + destruct I as (Hw & Hl & Hse & Hec & Ht).
-      unfold copy_in. rewrite Eo. rewrite wr_ok by lia. cbn [bind].
-      destruct (finish_own (splice a 0 d) 0 (length d) (capf b)) as (b' & H1 & H2 & H3 & _);
-        [len; lia | lia | lia |].
-      exists b'. split; [exact H1|split; [exact H2|]]. rewrite H3. list_eq.
+    + destruct I as (Hw & Hl & Hse & Hec & Ht & Hsm).
+      destruct b as [o w s e c]; cbn [own wb start stop capf] in *. subst o.
+      apply copy_in_ok; assumption.
     + destruct I as (Hc & I).
       assert (Hd : d = []) by (destruct d; [reflexivity|cbn [length] in E; lia]).
       eexists. split; [reflexivity|].
@@ -150,30 +237,37 @@ Qed.
 
 (* ---- prepend: head-room / in-place shift / reallocate -------------------------------------- *)
 
-Lemma prepend_realloc_ok b d : inv b -> exists b', prepend_realloc b d = Ok b' /\ inv b' /\ exposed b' = d ++ exposed b.
+Lemma prepend_realloc_ok b d : inv b ->
+  okun (N.of_nat (length d + size b)) (prepend_realloc b d (N.of_nat (length d + size b)))
+       (fun b' => inv b' /\ exposed b' = d ++ exposed b).
 Proof.
-  intro I. unfold prepend_realloc.
-  rewrite wr_ok by (len; lia). cbn [bind].
-  rewrite rd_win_prefix by (auto; unfold size; lia). cbn [bind].
-  pose proof (view_length b I) as Hv. unfold size.
-  rewrite firstn_all2 by lia.
-  rewrite wr_ok by (len; lia). cbn [bind].
-  set (req := length d + (stop b - start b)).
-  destruct (finish_own (splice (splice (new_array (req + 1)) 0 d) (length d) (view b)) 0 req req) as (b' & H1 & H2 & H3 & _);
-    [len; lia | lia | lia |].
-  exists b'. split; [exact H1|split; [exact H2|]]. rewrite H3, exposed_inv by exact I.
-  subst req. list_eq.
+  intro I. unfold prepend_realloc. okun_cases F.
+  - rewrite allocate_ok by exact F. cbn [bind]. rewrite Nat2N.id.
+    rewrite wr_ok by (len; lia). cbn [bind].
+    rewrite rd_win_prefix by (auto; unfold size; lia). cbn [bind].
+    pose proof (view_length b I) as Hv. unfold size in *.
+    rewrite firstn_all2 by lia.
+    rewrite wr_ok by (len; lia). cbn [bind].
+    set (req := length d + (stop b - start b)) in *.
+    destruct (finish_own (splice (splice (new_array (req + 1)) 0 d) (length d) (view b)) 0 req req) as (b' & H1 & H2 & H3 & _);
+      [len; lia | lia | lia | exact F |].
+    exists b'. split; [exact H1|split; [exact H2|]]. rewrite H3, exposed_inv by exact I.
+    subst req. list_eq.
+  - rewrite allocate_fail by exact F. reflexivity.
 Qed.
 
-Lemma prepend_ok b d : inv b -> exists b', prepend_ b d = Ok b' /\ inv b' /\ exposed b' = d ++ exposed b.
+Lemma prepend_ok b d : inv b -> small (length d) ->
+  okun (N.of_nat (length d + size b)) (prepend_ b d) (fun b' => inv b' /\ exposed b' = d ++ exposed b).
 Proof.
-  intro I. pose proof (exposed_inv b I) as Ex. pose proof I as I0.
+  intros I Hd. pose proof (exposed_inv b I) as Ex. pose proof I as I0. pose proof (inv_small b I) as Hs.
   unfold inv in I. unfold view in Ex. unfold prepend_, headroom.
   destruct (own b) as [a|] eqn:Eo.
-  - destruct I as (Hw & Hl & Hse & Hec & Ht). rewrite Hw. cbn [bind].
+  - destruct I as (Hw & Hl & Hse & Hec & Ht & Hsm). rewrite Hw. cbn [bind].
     destruct (length d <=? start b) eqn:Eh.
     + (* head-room *)
       apply Nat.leb_le in Eh.
+      assert (F : fitsN (N.of_nat (length d + size b)) = true) by (apply fitsN_true; unfold size; lia).
+      unfold okun. rewrite F.
       unfold wr_win; cbn [own wb start stop capf].
       rewrite wr_ok by lia. cbn [bind].
       eexists. split; [reflexivity|].
@@ -183,62 +277,73 @@ Proof.
         - nth_at. }
       split; [exact I'|]. rewrite exposed_inv by exact I'. unfold view; cbn [own wb start stop capf].
       rewrite Ex. list_eq.
-    + apply Nat.leb_gt in Eh. unfold size.
-      destruct (length d + (stop b - start b) <=? capf b) eqn:Ec.
+    + apply Nat.leb_gt in Eh. rewrite add_usize_small by assumption.
+      destruct (N.of_nat (length d + size b) <=? N.of_nat (capf b))%N eqn:Ec.
       * (* in-place shift *)
-        apply Nat.leb_le in Ec.
+        apply N.leb_le in Ec.
+        assert (F : fitsN (N.of_nat (length d + size b)) = true) by (apply fitsN_true; lia).
+        unfold okun. rewrite F. rewrite Nat2N.id. unfold size in *.
         rewrite rd_ok by lia. cbn [bind].
         rewrite wr_ok by (len; lia). cbn [bind].
         rewrite wr_ok by (len; lia). cbn [bind].
         destruct (finish_own (splice (splice a (length d) (slice a (start b) (stop b - start b))) 0 d) 0
                              (length d + (stop b - start b)) (capf b)) as (b' & H1 & H2 & H3 & _);
-          [len; lia | lia | lia |].
+          [len; lia | lia | lia | lia |].
         exists b'. split; [exact H1|split; [exact H2|]]. rewrite H3, Ex. list_eq.
       * apply prepend_realloc_ok; exact I0.
-  - cbn [bind]. apply prepend_realloc_ok; exact I0.
+  - cbn [bind]. rewrite add_usize_small by assumption. apply prepend_realloc_ok; exact I0.
 Qed.
 
 (* ---- resize: reallocate / in place / compact to front / non-owning ------------------------- *)
 
-Lemma resize_ok b n : inv b ->
-  exists b' t, resize_ b n = Ok b' /\ inv b' /\
-               exposed b' = firstn n (exposed b) ++ t /\ length t = n - size b /\
-               (owns b' = true \/ n = 0).
+Lemma resize_ok b sz : inv b ->
+  okun sz (resize_ b sz)
+       (fun b' => exists t, inv b' /\ exposed b' = firstn (N.to_nat sz) (exposed b) ++ t /\
+                            length t = N.to_nat sz - size b /\ (owns b' = true \/ sz = 0%N)).
 Proof.
   intro I. pose proof (exposed_inv b I) as Ex. pose proof (view_length b I) as Hv. pose proof I as I0.
+  pose proof (inv_cap_small b I) as Hcs.
   unfold inv in I. unfold resize_.
-  destruct (capf b <? n) eqn:E.
+  destruct (N.of_nat (capf b) <? sz)%N eqn:E.
   - (* reallocate *)
-    apply Nat.ltb_lt in E. unfold size.
-    rewrite rd_win_prefix by (auto; lia). cbn [bind].
-    rewrite wr_ok by (len; lia). cbn [bind].
-    destruct (finish_own (splice (new_array (n + 1)) 0 (firstn (Nat.min (stop b - start b) n) (view b))) 0 n n)
-      as (b' & H1 & H2 & H3 & H4 & _); [len; lia | lia | lia |].
-    exists b', (repeat None (n - (stop b - start b))).
-    split; [exact H1|split; [exact H2|split; [|split; [len; reflexivity|left; exact H4]]]].
-    rewrite H3, Ex. list_eq.
-  - apply Nat.ltb_ge in E. unfold view in Ex.
+    apply N.ltb_lt in E. okun_cases F.
+    + rewrite allocate_ok by exact F. cbn [bind].
+      remember (N.to_nat sz) as n eqn:En. unfold size.
+      rewrite rd_win_prefix by (auto; lia). cbn [bind].
+      rewrite wr_ok by (len; lia). cbn [bind].
+      destruct (finish_own (splice (new_array (n + 1)) 0 (firstn (Nat.min (stop b - start b) n) (view b))) 0 n n)
+        as (b' & H1 & H2 & H3 & H4 & _); [len; lia | lia | lia | lia |].
+      exists b'. split; [exact H1|]. exists (repeat None (n - (stop b - start b))).
+      split; [exact H2|split; [|split; [len; reflexivity|left; exact H4]]].
+      rewrite H3, Ex. list_eq.
+    + rewrite allocate_fail by exact F. reflexivity.
+  - apply N.ltb_ge in E.
+    assert (F : fitsN sz = true) by (apply fitsN_true; lia).
+    unfold okun. rewrite F.
+    remember (N.to_nat sz) as n eqn:En.
+    assert (E' : n <= capf b) by lia.
+    unfold view in Ex.
     destruct (own b) as [a|] eqn:Eo.
-    + destruct I as (Hw & Hl & Hse & Hec & Ht). rewrite Hw.
+    + destruct I as (Hw & Hl & Hse & Hec & Ht & Hsm). rewrite Hw.
       destruct (start b + n <=? capf b) eqn:Ei.
       * (* in place *)
         apply Nat.leb_le in Ei.
-        destruct (finish_own a (start b) (start b + n) (capf b)) as (b' & H1 & H2 & H3 & H4 & _); [lia | lia | lia |].
-        exists b', (slice a (stop b) (n - (stop b - start b))).
-        split; [exact H1|split; [exact H2|split; [|split; [unfold size; len; reflexivity|left; exact H4]]]].
+        destruct (finish_own a (start b) (start b + n) (capf b)) as (b' & H1 & H2 & H3 & H4 & _); [lia | lia | lia | lia |].
+        exists b'. split; [exact H1|]. exists (slice a (stop b) (n - (stop b - start b))).
+        split; [exact H2|split; [|split; [unfold size; len; reflexivity|left; exact H4]]].
         rewrite H3, Ex. list_eq.
       * (* compact to front *)
         apply Nat.leb_gt in Ei. unfold size.
         rewrite rd_ok by lia. cbn [bind].
         rewrite wr_ok by (len; lia). cbn [bind].
         destruct (finish_own (splice a 0 (slice a (start b) (stop b - start b))) 0 n (capf b))
-          as (b' & H1 & H2 & H3 & H4 & _); [len; lia | lia | lia |].
-        exists b', (slice a (stop b - start b) (n - (stop b - start b))).
-        split; [exact H1|split; [exact H2|split; [|split; [len; reflexivity|left; exact H4]]]].
+          as (b' & H1 & H2 & H3 & H4 & _); [len; lia | lia | lia | lia |].
+        exists b'. split; [exact H1|]. exists (slice a (stop b - start b) (n - (stop b - start b))).
+        split; [exact H2|split; [|split; [len; reflexivity|left; exact H4]]].
         rewrite H3, Ex. list_eq.
     + destruct I as (Hc & I).
-      exists (mkbuf None (wb b) (start b) (start b) (capf b)), [].
-      split; [reflexivity|].
+      exists (mkbuf None (wb b) (start b) (start b) (capf b)).
+      split; [reflexivity|]. exists [].
       assert (I' : inv (mkbuf None (wb b) (start b) (start b) (capf b))).
       { unfold inv; cbn [own wb start stop capf]. split; [exact Hc|].
         destruct (wb b); [contradiction|lia|lia]. }
@@ -257,7 +362,7 @@ Proof.
   intros I Hn Ho. pose proof (exposed_inv b I) as Ex. pose proof I as I0.
   unfold inv in I. unfold view in Ex. unfold size in *. unfold wr_win.
   destruct (own b) as [a|] eqn:Eo.
-  - destruct I as (Hw & Hl & Hse & Hec & Ht). rewrite Hw.
+  - destruct I as (Hw & Hl & Hse & Hec & Ht & Hsm). rewrite Hw.
     rewrite wr_ok by lia. cbn [bind].
     eexists. split; [reflexivity|].
     assert (I' : inv (mkbuf (Some (splice a (stop b - length d) d)) BOwn (start b) (stop b) (capf b))).
@@ -274,10 +379,14 @@ Proof.
     symmetry. apply firstn_all2. rewrite exposed_length by exact I0. unfold size. lia.
 Qed.
 
-Lemma append_ok b d : inv b -> exists b', append_ b d = Ok b' /\ inv b' /\ exposed b' = exposed b ++ d.
+Lemma append_ok b d : inv b -> small (length d) ->
+  okun (N.of_nat (size b + length d)) (append_ b d) (fun b' => inv b' /\ exposed b' = exposed b ++ d).
 Proof.
-  intro I. unfold append_.
-  destruct (resize_ok b (size b + length d) I) as (b1 & t & H1 & I1 & Ex1 & Ht & Ho1).
+  intros I Hd. unfold append_. pose proof (inv_small b I) as Hs.
+  rewrite add_usize_small by assumption.
+  pose proof (resize_ok b (N.of_nat (size b + length d)) I) as R. unfold okun in *.
+  destruct (fitsN (N.of_nat (size b + length d))) eqn:F; [|rewrite R; reflexivity].
+  destruct R as (b1 & H1 & t & I1 & Ex1 & Ht & Ho1). rewrite Nat2N.id in *.
   rewrite H1. cbn [bind].
   pose proof (exposed_length b I) as Hl. pose proof (exposed_length b1 I1) as Hl1.
   rewrite firstn_all2 in Ex1 by lia.
@@ -290,43 +399,105 @@ Proof.
   rewrite firstn_app, Nat.sub_diag, firstn_all. cbn [firstn]. rewrite app_nil_r. reflexivity.
 Qed.
 
-Lemma append_self_ok b : inv b -> exists b', append_self b = Ok b' /\ inv b' /\ exposed b' = exposed b ++ exposed b.
+(* after a resize to size + n the old bytes are the first [size] exposed bytes; copying [n] of them,
+   found at offset [off] from the new bufferStart, behind them *)
+Lemma copy_tail b1 E off n :
+  inv b1 -> size b1 = length E + n -> firstn (length E) (exposed b1) = E -> off + n <= length E ->
+  (owns b1 = true \/ n = 0) ->
+  exists b2, (do d <- rd_win b1 (start b1 + off) n;
+              if disjoint (start b1 + off) (stop b1 - n) n then
+                do b2 <- wr_win b1 (stop b1 - n) d; terminate_if_owned b2
+              else Err Overlap) = Ok b2 /\ inv b2 /\ exposed b2 = E ++ slice E off n.
 Proof.
-  intro I. unfold append_self.
-  destruct (resize_ok b (size b + size b) I) as (b1 & t & H1 & I1 & Ex1 & Ht & Ho1).
+  intros I1 Hs1 HE Hoff Ho1.
+  pose proof (exposed_inv b1 I1) as Ex1. pose proof (view_length b1 I1) as Hv1. pose proof (inv_le b1 I1) as Hle.
+  change (size b1) with (stop b1 - start b1) in Hs1.
+  assert (Hrd : rd_win b1 (start b1 + off) n = Ok (slice (view b1) off n)).
+  { pose proof I1 as I. unfold inv in I. unfold rd_win, view.
+    destruct (own b1) as [a|] eqn:Eo.
+    - destruct I as (Hw & Hl & Hse & Hec & Ht & Hsm). rewrite Hw.
+      rewrite rd_ok by lia. f_equal. list_eq.
+    - destruct I as (Hc & I). destruct (wb b1) as [|r|v] eqn:Ew; [contradiction| |].
+      + destruct I as (Hse & Her & Hsr).
+        replace (start b1 + off + n <=? length r) with true by (symmetry; apply Nat.leb_le; lia).
+        f_equal. unfold known. list_eq.
+      + destruct I as [Hs He]. rewrite Hs, He in *.
+        assert (n = 0) by lia. assert (off = 0) by lia. subst n off. reflexivity. }
+  rewrite Hrd. cbn [bind].
+  replace (disjoint (start b1 + off) (stop b1 - n) n) with true.
+  2:{ symmetry. unfold disjoint. apply orb_true_iff. left. apply orb_true_iff. right. apply Nat.leb_le. lia. }
+  assert (Hsl : slice (view b1) off n = slice E off n).
+  { rewrite <- Ex1. rewrite <- HE. unfold slice. list_eq. }
+  rewrite Hsl.
+  pose proof (overwrite_tail b1 (slice E off n) I1) as OT.
+  assert (Hln : length (slice E off n) = n) by (len; lia).
+  rewrite Hln in OT.
+  destruct OT as (b2 & H2 & I2 & Ex2); [change (size b1) with (stop b1 - start b1); lia | exact Ho1 |].
+  rewrite H2. cbn [bind]. rewrite terminate_ok by exact I2.
+  exists b2. split; [reflexivity|split; [exact I2|]].
+  rewrite Ex2. change (size b1) with (stop b1 - start b1). rewrite Hs1.
+  replace (length E + n - n) with (length E) by lia. rewrite HE. reflexivity.
+Qed.
+
+Lemma append_self_ok b : inv b ->
+  okun (N.of_nat (size b + size b)) (append_self b) (fun b' => inv b' /\ exposed b' = exposed b ++ exposed b).
+Proof.
+  intro I. unfold append_self. pose proof (inv_small b I) as Hs.
+  rewrite add_usize_small by assumption.
+  pose proof (resize_ok b (N.of_nat (size b + size b)) I) as R. unfold okun in *.
+  destruct (fitsN (N.of_nat (size b + size b))) eqn:F; [|rewrite R; reflexivity].
+  destruct R as (b1 & H1 & t & I1 & Ex1 & Ht & Ho1). rewrite Nat2N.id in *.
   rewrite H1. cbn [bind].
   pose proof (exposed_length b I) as Hl. pose proof (exposed_length b1 I1) as Hl1.
   rewrite firstn_all2 in Ex1 by lia.
-  assert (Hs1 : size b1 = size b + size b).
+  assert (Hs1 : size b1 = length (exposed b) + size b).
   { rewrite <- Hl1, Ex1, app_length. lia. }
-  change (size b1) with (stop b1 - start b1) in Hs1.
-  rewrite rd_win_prefix by (auto; lia). cbn [bind].
-  assert (Hf : firstn (size b) (view b1) = exposed b).
-  { rewrite <- exposed_inv by exact I1. rewrite Ex1, <- Hl, firstn_app, Nat.sub_diag, firstn_all.
-    cbn [firstn]. apply app_nil_r. }
-  rewrite Hf.
-  replace (disjoint (start b1) (stop b1 - size b) (size b)) with true.
-  2:{ symmetry. unfold disjoint. apply orb_true_iff. left. apply orb_true_iff. right. apply Nat.leb_le. pose proof (inv_le b1 I1). lia. }
-  pose proof (overwrite_tail b1 (exposed b) I1) as OT. rewrite Hl in OT.
-  destruct OT as (b2 & H2 & I2 & Ex2); [change (size b1) with (stop b1 - start b1); lia | destruct Ho1; [left; assumption|right; lia] |].
-  rewrite H2. cbn [bind]. rewrite terminate_ok by exact I2.
-  exists b2. split; [reflexivity|split; [exact I2|]].
-  rewrite Ex2, Ex1. change (size b1) with (stop b1 - start b1). rewrite Hs1.
-  replace (size b + size b - size b) with (length (exposed b)) by lia.
-  rewrite firstn_app, Nat.sub_diag, firstn_all. cbn [firstn]. rewrite app_nil_r. reflexivity.
+  destruct (copy_tail b1 (exposed b) 0 (size b) I1 Hs1) as (b2 & H2 & I2 & Ex2).
+  - rewrite Ex1, firstn_app, Nat.sub_diag, firstn_all. cbn [firstn]. apply app_nil_r.
+  - lia.
+  - destruct Ho1; [left; assumption|right; lia].
+  - rewrite Nat.add_0_r in H2. exists b2. split; [exact H2|split; [exact I2|]].
+    rewrite Ex2. f_equal. rewrite <- Hl. apply slice_all.
+Qed.
+
+(* b.append((const byte* )b + off, n) with [off, off+n) inside the window *)
+Lemma append_at_ok b off n : inv b -> off + n <= size b ->
+  okun (N.of_nat (size b + n)) (append_at b off n)
+       (fun b' => inv b' /\ exposed b' = exposed b ++ slice (exposed b) off n).
+Proof.
+  intros I Hoff. unfold append_at. pose proof (inv_small b I) as Hs.
+  rewrite add_usize_small by (try assumption; lia).
+  pose proof (resize_ok b (N.of_nat (size b + n)) I) as R. unfold okun in *.
+  destruct (fitsN (N.of_nat (size b + n))) eqn:F; [|rewrite R; reflexivity].
+  destruct R as (b1 & H1 & t & I1 & Ex1 & Ht & Ho1). rewrite Nat2N.id in *.
+  rewrite H1. cbn [bind].
+  pose proof (exposed_length b I) as Hl. pose proof (exposed_length b1 I1) as Hl1.
+  rewrite firstn_all2 in Ex1 by lia.
+  assert (Hs1 : size b1 = length (exposed b) + n).
+  { rewrite <- Hl1, Ex1, app_length. lia. }
+  destruct (off <? size b) eqn:Ei.
+  - destruct (copy_tail b1 (exposed b) off n I1 Hs1) as (b2 & H2 & I2 & Ex2).
+    + rewrite Ex1, firstn_app, Nat.sub_diag, firstn_all. cbn [firstn]. apply app_nil_r.
+    + lia.
+    + destruct Ho1; [left; assumption|right; lia].
+    + exists b2. auto.
+  - apply Nat.ltb_ge in Ei. assert (n = 0) by lia. subst n. cbn [Nat.eqb].
+    rewrite terminate_ok by exact I1. exists b1. split; [reflexivity|split; [exact I1|]].
+    rewrite Ex1. replace t with (@nil cell) by (destruct t; [reflexivity|cbn [length] in Ht; lia]).
+    unfold slice. cbn [firstn]. reflexivity.
 Qed.
 
 (* ---- removeFront / removeBack -------------------------------------------------------------- *)
 
 (* the state after "bufferStart = bufferEnd = buffer ? buffer : &_capacity", from any window *)
 Lemma reset_then_terminate self o w s e c :
-  (match o with Some a => length a = c + 1 | None => c = 0 end) ->
+  (match o with Some a => length a = c + 1 /\ small c | None => c = 0 end) ->
   exists b', terminate_if_owned (reset_empty self (mkbuf o w s e c)) = Ok b' /\ inv b' /\ exposed b' = [].
 Proof.
   intro H. unfold reset_empty; cbn [own wb start stop capf].
   destruct o as [a|].
-  - unfold terminate_if_owned; cbn [own].
-    destruct (finish_own a 0 0 c) as (b' & H1 & H2 & H3 & _); [exact H|lia|lia|].
+  - unfold terminate_if_owned; cbn [own]. destruct H as [H Hsm].
+    destruct (finish_own a 0 0 c) as (b' & H1 & H2 & H3 & _); [exact H|lia|lia|exact Hsm|].
     exists b'. split; [exact H1|split; [exact H2|]]. rewrite H3. reflexivity.
   - eexists. split; [reflexivity|].
     assert (I' : inv (mkbuf None (BCap self) 0 0 c)).
@@ -334,102 +505,104 @@ Proof.
     split; [exact I'|]. rewrite exposed_inv by exact I'. reflexivity.
 Qed.
 
-Lemma inv_shape b : inv b -> match own b with Some a => length a = capf b + 1 | None => capf b = 0 end.
+Lemma inv_shape b : inv b -> match own b with Some a => length a = capf b + 1 /\ small (capf b) | None => capf b = 0 end.
 Proof. unfold inv. destruct (own b); tauto. Qed.
 
 Lemma remove_front_ok self b n : inv b ->
-  exists b', remove_front self b n = Ok b' /\ inv b' /\ exposed b' = skipn n (exposed b).
+  exists b', remove_front self b n = Ok b' /\ inv b' /\
+             exposed b' = if (N.of_nat (size b) <=? n)%N then [] else skipn (N.to_nat n) (exposed b).
 Proof.
   intro I. pose proof (exposed_inv b I) as Ex. pose proof (exposed_length b I) as Hl. pose proof I as I0.
   pose proof (inv_le b I) as Hle.
   unfold remove_front.
-  destruct (size b <=? n) eqn:E.
-  - apply Nat.leb_le in E. destruct b as [o w s e c]; cbn [own wb start stop capf] in *.
+  destruct (N.of_nat (size b) <=? n)%N eqn:E.
+  - destruct b as [o w s e c]; cbn [own wb start stop capf] in *.
     destruct (reset_then_terminate self o w s e c (inv_shape _ I)) as (b' & H1 & H2 & H3).
-    exists b'. split; [exact H1|split; [exact H2|]]. rewrite H3.
-    symmetry. apply skipn_all2. lia.
-  - apply Nat.leb_gt in E. unfold size in E. eexists. split; [reflexivity|].
+    exists b'. split; [exact H1|split; [exact H2|exact H3]].
+  - apply N.leb_gt in E. unfold size in E. remember (N.to_nat n) as k eqn:Ek.
+    assert (E' : k < stop b - start b) by lia.
+    eexists. split; [reflexivity|].
     unfold inv in I. unfold view in Ex.
-    assert (I' : inv (mkbuf (own b) (wb b) (start b + n) (stop b) (capf b))).
+    assert (I' : inv (mkbuf (own b) (wb b) (start b + k) (stop b) (capf b))).
     { unfold inv; cbn [own wb start stop capf]. destruct (own b) as [a|].
       - repeat split; try tauto; lia.
       - destruct (wb b); [tauto|lia|lia]. }
     split; [exact I'|]. rewrite exposed_inv by exact I'. rewrite Ex. unfold view; cbn [own wb start stop capf].
     destruct (own b) as [a|].
-    + destruct I as (Hw & Hl' & Hse & Hec & Ht). list_eq.
+    + destruct I as (Hw & Hl' & Hse & Hec & Ht & Hsm). list_eq.
     + destruct I as (Hc & I). destruct (wb b) as [|r|v]; [contradiction| |].
-      * destruct I as [Hse Her]. unfold known. list_eq.
+      * destruct I as (Hse & Her & Hsr). unfold known. list_eq.
       * symmetry. apply skipn_nil.
 Qed.
 
 Lemma remove_back_ok self b n : inv b ->
-  exists b', remove_back self b n = Ok b' /\ inv b' /\ exposed b' = firstn (size b - n) (exposed b).
+  exists b', remove_back self b n = Ok b' /\ inv b' /\
+             exposed b' = if (N.of_nat (size b) <=? n)%N then [] else firstn (size b - N.to_nat n) (exposed b).
 Proof.
   intro I. pose proof (exposed_inv b I) as Ex. pose proof I as I0. pose proof (inv_le b I) as Hle.
   unfold remove_back.
-  destruct (size b <=? n) eqn:E.
-  - apply Nat.leb_le in E. destruct b as [o w s e c]; cbn [own wb start stop capf] in *.
+  destruct (N.of_nat (size b) <=? n)%N eqn:E.
+  - destruct b as [o w s e c]; cbn [own wb start stop capf] in *.
     destruct (reset_then_terminate self o w s e c (inv_shape _ I)) as (b' & H1 & H2 & H3).
-    exists b'. split; [exact H1|split; [exact H2|]]. rewrite H3.
-    replace (size _ - n) with 0 by lia. reflexivity.
-  - apply Nat.leb_gt in E. unfold inv in I. unfold view in Ex. unfold size in *.
+    exists b'. split; [exact H1|split; [exact H2|exact H3]].
+  - apply N.leb_gt in E. unfold inv in I. unfold view in Ex. unfold size in *.
+    remember (N.to_nat n) as k eqn:Ek.
+    assert (E' : k < stop b - start b) by lia.
     destruct (own b) as [a|] eqn:Eo.
-    + destruct I as (Hw & Hl' & Hse & Hec & Ht).
+    + destruct I as (Hw & Hl' & Hse & Hec & Ht & Hsm).
       unfold terminate_if_owned; cbn [own]. rewrite Hw.
-      destruct (finish_own a (start b) (stop b - n) (capf b)) as (b' & H1 & H2 & H3 & _); [lia|lia|lia|].
+      destruct (finish_own a (start b) (stop b - k) (capf b)) as (b' & H1 & H2 & H3 & _); [lia|lia|lia|lia|].
       exists b'. split; [exact H1|split; [exact H2|]]. rewrite H3, Ex. list_eq.
     + destruct I as (Hc & I). unfold terminate_if_owned; cbn [own].
       eexists. split; [reflexivity|].
-      assert (I' : inv (mkbuf None (wb b) (start b) (stop b - n) (capf b))).
+      assert (I' : inv (mkbuf None (wb b) (start b) (stop b - k) (capf b))).
       { unfold inv; cbn [own wb start stop capf]. split; [exact Hc|]. destruct (wb b); [tauto|lia|lia]. }
       split; [exact I'|]. rewrite exposed_inv by exact I'. rewrite Ex. unfold view; cbn [own wb start stop capf].
       destruct (wb b) as [|r|v]; [contradiction| |].
-      * destruct I as [Hse Her]. unfold known. list_eq.
+      * destruct I as (Hse & Her & Hsr). unfold known. list_eq.
       * symmetry. apply firstn_nil.
 Qed.
 
-(* an argument at or beyond the current size acts like any other such argument (the drivers use this
-   to pass sizes near 2^64, which [nat] cannot hold, as size+1) *)
-Lemma remove_clamp_lemma self b n m : size b <= n -> size b <= m ->
+(* an argument at or beyond the current size acts like any other such argument, 2^64-1 included *)
+Lemma remove_clamp_lemma self b n m : (N.of_nat (size b) <= n)%N -> (N.of_nat (size b) <= m)%N ->
   remove_front self b n = remove_front self b m /\ remove_back self b n = remove_back self b m.
 Proof.
   intros Hn Hm. unfold remove_front, remove_back.
-  apply Nat.leb_le in Hn. apply Nat.leb_le in Hm. rewrite Hn, Hm. split; reflexivity.
-Qed.
-
-Lemma spec_remove_clamp_lemma (q : queue) n m : length q <= n -> length q <= m ->
-  skipn n q = skipn m q /\ firstn (length q - n) q = firstn (length q - m) q.
-Proof.
-  intros Hn Hm. split.
-  - rewrite !skipn_all2 by lia. reflexivity.
-  - replace (length q - n) with 0 by lia. replace (length q - m) with 0 by lia. reflexivity.
+  apply N.leb_le in Hn. apply N.leb_le in Hm. rewrite Hn, Hm. split; reflexivity.
 Qed.
 
 (* ---- reserve / clear / free / attach / constructors ---------------------------------------- *)
 
-Lemma reserve_ok b c : inv b -> exists b', reserve_ b c = Ok b' /\ inv b' /\ exposed b' = exposed b.
+Lemma reserve_ok b c : inv b -> okun c (reserve_ b c) (fun b' => inv b' /\ exposed b' = exposed b).
 Proof.
-  intro I. unfold reserve_.
-  destruct (c <=? capf b) eqn:E; [exists b; auto|].
-  apply Nat.leb_gt in E.
-  pose proof (view_length b I) as Hv.
-  rewrite rd_win_prefix by (auto; unfold size; lia). cbn [bind]. unfold size.
-  rewrite firstn_all2 by lia.
-  set (c' := if c <? stop b - start b then stop b - start b else c).
-  assert (Hc' : stop b - start b <= c').
-  { subst c'. destruct (c <? stop b - start b) eqn:E2; [lia|apply Nat.ltb_ge in E2; lia]. }
-  rewrite wr_ok by (len; lia). cbn [bind].
-  destruct (finish_own (splice (new_array (c' + 1)) 0 (view b)) 0 (stop b - start b) c') as (b' & H1 & H2 & H3 & _);
-    [len; lia|lia|lia|].
-  exists b'. split; [exact H1|split; [exact H2|]]. rewrite H3, exposed_inv by exact I. list_eq.
+  intro I. unfold reserve_. pose proof (inv_cap_small b I) as Hcs. pose proof (inv_small b I) as Hss.
+  destruct (c <=? N.of_nat (capf b))%N eqn:E.
+  - apply N.leb_le in E. assert (F : fitsN c = true) by (apply fitsN_true; lia).
+    unfold okun. rewrite F. exists b; auto.
+  - apply N.leb_gt in E.
+    pose proof (view_length b I) as Hv.
+    remember (if (c <? N.of_nat (size b))%N then N.of_nat (size b) else c) as c' eqn:Ec'.
+    assert (Hc' : (N.of_nat (size b) <= c')%N /\ (c <= c')%N /\ ((c < max_bytes)%N -> (c' < max_bytes)%N)).
+    { subst c'. destruct (c <? N.of_nat (size b))%N eqn:E2; [apply N.ltb_lt in E2|apply N.ltb_ge in E2]; lia. }
+    destruct Hc' as (Hc1 & Hc2 & Hc3).
+    okun_cases F.
+    + rewrite allocate_ok by auto. cbn [bind].
+      remember (N.to_nat c') as k eqn:Ek.
+      rewrite rd_win_prefix by (auto; unfold size; lia). cbn [bind]. unfold size in *.
+      rewrite firstn_all2 by lia.
+      rewrite wr_ok by (len; lia). cbn [bind].
+      destruct (finish_own (splice (new_array (k + 1)) 0 (view b)) 0 (stop b - start b) k) as (b' & H1 & H2 & H3 & _);
+        [len; lia|lia|lia|specialize (Hc3 F); lia|].
+      exists b'. split; [exact H1|split; [exact H2|]]. rewrite H3, exposed_inv by exact I. list_eq.
+    + rewrite allocate_fail by lia. reflexivity.
 Qed.
 
 Lemma clear_ok b : inv b -> exists b', clear_ b = Ok b' /\ inv b' /\ exposed b' = [].
 Proof.
   intro I. unfold clear_. unfold inv in I.
   destruct (own b) as [a|] eqn:Eo.
-  - destruct I as (Hw & Hl & Hse & Hec & Ht).
-    destruct (finish_own a 0 0 (capf b)) as (b' & H1 & H2 & H3 & _); [lia|lia|lia|].
+  - destruct I as (Hw & Hl & Hse & Hec & Ht & Hsm).
+    destruct (finish_own a 0 0 (capf b)) as (b' & H1 & H2 & H3 & _); [lia|lia|lia|lia|].
     exists b'. split; [exact H1|split; [exact H2|]]. rewrite H3. reflexivity.
   - destruct I as (Hc & I). eexists. split; [reflexivity|].
     assert (I' : inv (mkbuf None (wb b) (start b) (start b) (capf b))).
@@ -447,26 +620,116 @@ Qed.
 Lemma free_ok self b : inv (free_ self b) /\ exposed (free_ self b) = [].
 Proof. exact (default_ok self). Qed.
 
-Lemma attach_ok b r : inv (attach_ b r) /\ exposed (attach_ b r) = known r.
+Lemma attach_ok b r : small (length r) -> inv (attach_ b r) /\ exposed (attach_ b r) = known r.
 Proof.
+  intro Hr.
   assert (I : inv (attach_ b r)) by (unfold inv, attach_; cbn [own wb start stop capf]; lia).
   split; [exact I|]. rewrite exposed_inv by exact I. unfold view, attach_; cbn [own wb start stop capf].
   rewrite Nat.sub_0_r. f_equal. apply slice_all.
 Qed.
 
-Lemma ctor_cap_ok n : exists b', ctor_cap n = Ok b' /\ inv b' /\ exposed b' = [].
+Lemma ctor_cap_ok n : okun n (ctor_cap n) (fun b' => inv b' /\ exposed b' = []).
 Proof.
-  unfold ctor_cap.
-  destruct (finish_own (new_array (n + 1)) 0 0 n) as (b' & H1 & H2 & H3 & _); [len; lia|lia|lia|].
-  exists b'. split; [exact H1|split; [exact H2|]]. rewrite H3. reflexivity.
+  unfold ctor_cap. okun_cases F.
+  - rewrite allocate_ok by exact F. cbn [bind]. remember (N.to_nat n) as k eqn:Ek.
+    destruct (finish_own (new_array (k + 1)) 0 0 k) as (b' & H1 & H2 & H3 & _); [len; lia|lia|lia|lia|].
+    exists b'. split; [exact H1|split; [exact H2|]]. rewrite H3. reflexivity.
+  - rewrite allocate_fail by exact F. reflexivity.
 Qed.
 
-Lemma ctor_data_ok d : exists b', ctor_data d = Ok b' /\ inv b' /\ exposed b' = d.
+Lemma ctor_data_ok d : okun (N.of_nat (length d)) (ctor_data d) (fun b' => inv b' /\ exposed b' = d).
 Proof.
-  unfold ctor_data. rewrite wr_ok by (len; lia). cbn [bind].
-  destruct (finish_own (splice (new_array (length d + 1)) 0 d) 0 (length d) (length d)) as (b' & H1 & H2 & H3 & _);
-    [len; lia|lia|lia|].
-  exists b'. split; [exact H1|split; [exact H2|]]. rewrite H3. list_eq.
+  unfold ctor_data. okun_cases F.
+  - rewrite allocate_ok by exact F. cbn [bind]. rewrite Nat2N.id.
+    rewrite wr_ok by (len; lia). cbn [bind].
+    destruct (finish_own (splice (new_array (length d + 1)) 0 d) 0 (length d) (length d)) as (b' & H1 & H2 & H3 & _);
+      [len; lia|lia|lia|exact F|].
+    exists b'. split; [exact H1|split; [exact H2|]]. rewrite H3. list_eq.
+  - rewrite allocate_fail by exact F. reflexivity.
+Qed.
+
+(* ---- a source inside the window: assign / prepend -------------------------------------------- *)
+
+Lemma rd_win_inside b off n : inv b -> off + n <= size b ->
+  rd_win b (start b + off) n = Ok (slice (exposed b) off n).
+Proof.
+  intros I Hoff. rewrite exposed_inv by exact I. unfold size in Hoff.
+  pose proof I as I0. unfold inv in I. unfold rd_win, view.
+  destruct (own b) as [a|] eqn:Eo.
+  - destruct I as (Hw & Hl & Hse & Hec & Ht & Hsm). rewrite Hw.
+    rewrite rd_ok by lia. f_equal. list_eq.
+  - destruct I as (Hc & I). destruct (wb b) as [|r|v] eqn:Ew; [contradiction| |].
+    + destruct I as (Hse & Her & Hsr).
+      replace (start b + off + n <=? length r) with true by (symmetry; apply Nat.leb_le; lia).
+      f_equal. unfold known. list_eq.
+    + destruct I as [Hs He]. rewrite Hs, He in *.
+      assert (n = 0) by lia. assert (off = 0) by lia. subst n off. reflexivity.
+Qed.
+
+Lemma assign_at_ok b off n : inv b -> off + n <= size b ->
+  okun (N.of_nat n) (assign_at b off n) (fun b' => inv b' /\ exposed b' = slice (exposed b) off n).
+Proof.
+  intros I Hoff. pose proof (exposed_length b I) as Hl.
+  assert (Hsl : length (slice (exposed b) off n) = n) by (len; lia).
+  pose proof (assign_ok b (slice (exposed b) off n) I) as A. rewrite Hsl in A.
+  unfold assign_ in A. rewrite Hsl in A. unfold assign_at.
+  rewrite rd_win_inside by assumption.
+  destruct (capf b <? n) eqn:E.
+  - destruct (own b) as [a|] eqn:Eo.
+    + exfalso. apply Nat.ltb_lt in E. unfold inv in I. rewrite Eo in I. unfold size in Hoff. lia.
+    + unfold okun in *. destruct (fitsN (N.of_nat n)).
+      * destruct (allocate (N.of_nat n)); cbn [bind] in *; exact A.
+      * destruct (allocate (N.of_nat n)); cbn [bind] in *; exact A.
+  - destruct (own b) as [a|] eqn:Eo; cbn [bind]; exact A.
+Qed.
+
+Lemma prepend_at_eq b off n : inv b -> off + n <= size b ->
+  prepend_at b off n = prepend_ b (slice (exposed b) off n).
+Proof.
+  intros I Hoff. pose proof (exposed_length b I) as Hl. pose proof (inv_small b I) as Hss.
+  pose proof (exposed_inv b I) as Ex.
+  assert (Hsl : length (slice (exposed b) off n) = n) by (len; lia).
+  unfold prepend_at, prepend_. rewrite Hsl.
+  destruct (headroom b n) as [hr|e] eqn:Eh; cbn [bind]; [|reflexivity].
+  destruct hr.
+  - rewrite rd_win_inside by assumption. cbn [bind].
+    replace (disjoint (start b + off) (start b - n) n) with true; [reflexivity|].
+    symmetry. unfold disjoint. apply orb_true_iff. right. apply Nat.leb_le.
+    unfold headroom in Eh. destruct (own b); [|discriminate]. destruct (wb b); try discriminate.
+    injection Eh as Eh. apply Nat.leb_le in Eh. lia.
+  - rewrite add_usize_small by lia.
+    destruct (own b) as [a|] eqn:Eo.
+    + destruct (N.of_nat (n + size b) <=? N.of_nat (capf b))%N eqn:Ec.
+      * apply N.leb_le in Ec. unfold inv in I. rewrite Eo in I.
+        destruct I as (Hw & Hla & Hse & Hec & Ht & Hsm). unfold size in *.
+        rewrite rd_ok by lia. cbn [bind].
+        rewrite wr_ok by (len; lia). cbn [bind].
+        set (a1 := splice a n (slice a (start b) (stop b - start b))).
+        set (src := if off <? stop b - start b then n + off else start b + off).
+        assert (Hsrc : src + n <= length a /\ (n = 0 \/ n <= src)).
+        { subst src. destruct (off <? stop b - start b) eqn:Eo2; [apply Nat.ltb_lt in Eo2|apply Nat.ltb_ge in Eo2]; lia. }
+        rewrite rd_ok by (subst a1; len; lia). cbn [bind].
+        replace (disjoint src 0 n) with true.
+        2:{ symmetry. unfold disjoint. destruct Hsrc as [_ [H0|H0]].
+            - subst n. reflexivity.
+            - apply orb_true_iff. right. apply Nat.leb_le. lia. }
+        replace (slice a1 src n) with (slice (exposed b) off n); [reflexivity|].
+        rewrite Ex. unfold view. rewrite Eo. subst a1 src.
+        destruct (off <? stop b - start b) eqn:Eo2; [apply Nat.ltb_lt in Eo2|apply Nat.ltb_ge in Eo2].
+        -- list_eq.
+        -- assert (n = 0) by lia. subst n. reflexivity.
+      * rewrite rd_win_inside by assumption. reflexivity.
+    + rewrite rd_win_inside by assumption. reflexivity.
+Qed.
+
+Lemma prepend_at_ok b off n : inv b -> off + n <= size b ->
+  okun (N.of_nat (n + size b)) (prepend_at b off n)
+       (fun b' => inv b' /\ exposed b' = slice (exposed b) off n ++ exposed b).
+Proof.
+  intros I Hoff. pose proof (exposed_length b I) as Hl. pose proof (inv_small b I) as Hss.
+  assert (Hsl : length (slice (exposed b) off n) = n) by (len; lia).
+  rewrite prepend_at_eq by assumption.
+  pose proof (prepend_ok b (slice (exposed b) off n) I) as A. rewrite Hsl in A. apply A. lia.
 Qed.
 
 (* ---- the reference relation on byte lists --------------------------------------------------- *)
@@ -566,31 +829,83 @@ Proof.
   - rewrite H. reflexivity.
 Qed.
 
-Definition sim_goal (r : res (world * option bool)) (s : option (list queue * option bool)) : Prop :=
+Definition sim_goal (r : res (world * option bool)) (s : sstep) : Prop :=
   match s with
-  | Some (qs', a') => exists w' a, r = Ok (w', a) /\ winv w' /\ wref w' qs' /\ ans_ref a a'
-  | None => r = Err BadArg
+  | SOk (qs', a') => exists w' a, r = Ok (w', a) /\ winv w' /\ wref w' qs' /\ ans_ref a a'
+  | SReject => r = Err BadArg
+  | SUnsat => r = Err AllocFail
   end.
 
 Lemma ret1_sim w qs v rb q' :
   winv w -> wref w qs ->
   (exists b', rb = Ok b' /\ inv b' /\ ref b' q') ->
-  sim_goal (ret1 w v rb) (Some (upd v q' qs, None)).
+  sim_goal (ret1 w v rb) (SOk (upd v q' qs, None)).
 Proof.
   intros Iw Rw (b' & Hb & Ib & Rb). subst rb. unfold sim_goal, ret1. cbn [bind].
   exists (upd v b' w), None. split; [reflexivity|].
   split; [apply Forall_upd; assumption|split; [apply F2_upd; assumption|right; reflexivity]].
 Qed.
 
-Lemma on1_sim w qs v (F : buf -> res buf) (f : queue -> queue) :
+Lemma okun_need n m r P : n = m -> okun n r P -> okun m r P.
+Proof. intros; subst; assumption. Qed.
+
+Lemma okun_imp n r (P Q : buf -> Prop) : (forall b', P b' -> Q b') -> okun n r P -> okun n r Q.
+Proof.
+  intros H. unfold okun. destruct (fitsN n); [|auto]. intros (b' & H1 & H2). exists b'. auto.
+Qed.
+
+Lemma okun_zero r P : (exists b', r = Ok b' /\ P b') -> okun 0%N r P.
+Proof. intro H. exact H. Qed.
+
+Lemma okun_fits n r P : fitsN n = true -> (exists b', r = Ok b' /\ P b') -> okun n r P.
+Proof. intros F H. unfold okun. rewrite F. exact H. Qed.
+
+Lemma ref_eq b q E : exposed b = E -> Forall2 cell_ref E q -> ref b q.
+Proof. intros H H2. unfold ref. rewrite H. exact H2. Qed.
+
+(* from "exposes exactly E" to "refines q'" *)
+Lemma okun_ref n r E q' : Forall2 cell_ref E q' ->
+  okun n r (fun b' => inv b' /\ exposed b' = E) -> okun n r (fun b' => inv b' /\ ref b' q').
+Proof.
+  intro H. apply okun_imp. intros b' [I1 E1]. split; [exact I1|]. eapply ref_eq; eassumption.
+Qed.
+
+Lemma ref_len b q : inv b -> ref b q -> length q = size b.
+Proof. intros I R. rewrite <- (F2_length _ _ _ R). apply exposed_length; exact I. Qed.
+
+Lemma sim_of_okun w qs v n rb q' :
   winv w -> wref w qs ->
-  (forall b q, inv b -> ref b q -> exists b', F b = Ok b' /\ inv b' /\ ref b' (f q)) ->
-  sim_goal (do b <- get w v; ret1 w v (F b)) (on1 qs v f).
+  okun n rb (fun b' => inv b' /\ ref b' q') ->
+  sim_goal (ret1 w v rb) (if fitsN n then SOk (upd v q' qs, None) else SUnsat).
+Proof.
+  intros Iw Rw H. unfold okun in H. destruct (fitsN n).
+  - apply ret1_sim; assumption.
+  - rewrite H. reflexivity.
+Qed.
+
+Lemma on1_sim w qs v (F : buf -> res buf) (need : queue -> N) (f : queue -> queue) :
+  winv w -> wref w qs ->
+  (forall b q, inv b -> ref b q -> okun (need q) (F b) (fun b' => inv b' /\ ref b' (f q))) ->
+  sim_goal (do b <- get w v; ret1 w v (F b)) (on1 qs v need f).
 Proof.
   intros Iw Rw HF. pose proof (get_sim w qs v Iw Rw) as G. unfold on1.
   destruct (nth_error qs v) as [q|].
   - destruct G as (b & Hg & Ib & Rb). rewrite Hg. cbn [bind].
-    apply ret1_sim; auto.
+    apply sim_of_okun; auto.
+  - rewrite G. reflexivity.
+Qed.
+
+Lemma on1at_sim w qs v off n (F : buf -> res buf) (need : queue -> N) (f : queue -> queue) :
+  winv w -> wref w qs ->
+  (forall b q, inv b -> ref b q -> off + n <= size b -> okun (need q) (F b) (fun b' => inv b' /\ ref b' (f q))) ->
+  sim_goal (do b <- get w v; if at_ok b off n then ret1 w v (F b) else Err BadArg) (on1at qs v off n need f).
+Proof.
+  intros Iw Rw HF. pose proof (get_sim w qs v Iw Rw) as G. unfold on1at, on1.
+  destruct (nth_error qs v) as [q|].
+  - destruct G as (b & Hg & Ib & Rb). rewrite Hg. cbn [bind].
+    unfold at_ok. rewrite (ref_len b q Ib Rb).
+    destruct (off + n <=? size b) eqn:E; [|reflexivity].
+    apply Nat.leb_le in E. apply sim_of_okun; auto.
   - rewrite G. reflexivity.
 Qed.
 
@@ -608,19 +923,35 @@ Proof.
   - intro K. rewrite G1. reflexivity.
 Qed.
 
-Lemma ref_eq b q E : exposed b = E -> Forall2 cell_ref E q -> ref b q.
-Proof. intros H H2. unfold ref. rewrite H. exact H2. Qed.
+Lemma F2_slice x q off n : Forall2 cell_ref x q -> Forall2 cell_ref (slice x off n) (q_part q off n).
+Proof. intro H. unfold slice, q_part. apply F2_firstn. apply F2_skipn. exact H. Qed.
 
-Ltac finish_op H :=
-  let b' := fresh "b'" in let H1 := fresh "H1" in let H2 := fresh "H2" in let H3 := fresh "H3" in
-  destruct H as (b' & H1 & H2 & H3); exists b'; split; [exact H1|split; [exact H2|]];
-  eapply ref_eq; [exact H3|].
+Lemma upd_same {A} (qs : list A) v q : nth_error qs v = Some q -> upd v q qs = qs.
+Proof.
+  revert v. induction qs as [|h t IH]; intros [|v] Eq; cbn [upd nth_error] in *; try discriminate.
+  - congruence.
+  - f_equal. apply IH. exact Eq.
+Qed.
+
+Lemma push_sim w qs (rb : res buf) n q' :
+  winv w -> wref w qs -> okun n rb (fun b' => inv b' /\ ref b' q') ->
+  sim_goal (do b <- rb; Ok (w ++ [b], None)) (if fitsN n then SOk (qs ++ [q'], None) else SUnsat).
+Proof.
+  intros Iw Rw H. unfold okun in H. destruct (fitsN n).
+  - destruct H as (b' & H1 & I & R). rewrite H1. cbn [bind].
+    exists (w ++ [b']), None. split; [reflexivity|].
+    split; [apply Forall_app; split; [exact Iw|constructor; [exact I|constructor]]|].
+    split; [|right; reflexivity].
+    apply Forall2_app; [exact Rw|constructor; [exact R|constructor]].
+  - rewrite H. reflexivity.
+Qed.
 
 Theorem step_sim_lemma w qs o : winv w -> wref w qs -> sim_goal (step w o) (spec_step qs o).
 Proof.
   intros Iw Rw. pose proof (F2_length _ _ _ Rw) as Hlen.
-  destruct o as [ |n|d|x|v d|v x|v d|v d|v x|v d|v x|v n|v n|v n|v n|v|v|v x|v x];
-    cbn [step spec_step].
+  unfold step, spec_step. destruct (data_ok o) eqn:D; cbn [negb]; [|reflexivity].
+  destruct o as [ |n|d|x|v d|v x|v d|v d|v x|v d|v x|v n|v n|v n|v n|v|v|v x|v x|v off n|v off n|v off n];
+    cbn [data_ok] in D; try (apply fits_small in D).
   - (* ONew *)
     exists (w ++ [default_ (length w)]), None. split; [reflexivity|].
     destruct (default_ok (length w)) as [I E].
@@ -628,31 +959,23 @@ Proof.
     split; [|right; reflexivity].
     apply Forall2_app; [exact Rw|constructor; [|constructor]]. eapply ref_eq; [exact E|constructor].
   - (* ONewCap *)
-    destruct (ctor_cap_ok n) as (b' & H1 & I & E). rewrite H1. cbn [bind].
-    exists (w ++ [b']), None. split; [reflexivity|].
-    split; [apply Forall_app; split; [exact Iw|constructor; [exact I|constructor]]|].
-    split; [|right; reflexivity].
-    apply Forall2_app; [exact Rw|constructor; [|constructor]]. eapply ref_eq; [exact E|constructor].
+    apply push_sim; auto. eapply okun_ref; [|apply ctor_cap_ok]. constructor.
   - (* ONewData *)
-    destruct (ctor_data_ok (known d)) as (b' & H1 & I & E). rewrite H1. cbn [bind].
-    exists (w ++ [b']), None. split; [reflexivity|].
-    split; [apply Forall_app; split; [exact Iw|constructor; [exact I|constructor]]|].
-    split; [|right; reflexivity].
-    apply Forall2_app; [exact Rw|constructor; [|constructor]]. eapply ref_eq; [exact E|apply cr_refl].
+    pose proof (push_sim w qs (ctor_data (known d)) (N.of_nat (length d)) (known d) Iw Rw) as P.
+    replace (fitsN (N.of_nat (length d))) with true in P by (symmetry; apply fitsN_true; exact D).
+    apply P. eapply okun_ref; [apply cr_refl|].
+    eapply okun_need; [|apply ctor_data_ok]. rewrite known_length. reflexivity.
   - (* ONewCopy *)
     pose proof (get_sim w qs x Iw Rw) as G.
     destruct (nth_error qs x) as [p|]; [|rewrite G; reflexivity].
     destruct G as (s & Hs & Is & Rs). rewrite Hs. cbn [bind].
     rewrite win_inv by exact Is. cbn [bind].
-    destruct (ctor_data_ok (view s)) as (b' & H1 & I & E). rewrite H1. cbn [bind].
-    exists (w ++ [b']), None. split; [reflexivity|].
-    split; [apply Forall_app; split; [exact Iw|constructor; [exact I|constructor]]|].
-    split; [|right; reflexivity].
-    apply Forall2_app; [exact Rw|constructor; [|constructor]]. eapply ref_eq; [exact E|].
-    rewrite <- exposed_inv by exact Is. exact Rs.
+    apply push_sim; auto. eapply okun_ref; [|eapply okun_need; [|apply ctor_data_ok]].
+    + rewrite <- exposed_inv by exact Is. exact Rs.
+    + unfold len. rewrite (ref_len s p Is Rs). f_equal. apply view_length; exact Is.
   - (* OAttach *)
-    apply (on1_sim w qs v (fun b => Ok (attach_ b d)) (fun _ => known d) Iw Rw).
-    intros b q Ib Rb. destruct (attach_ok b d) as [I E].
+    apply (on1_sim w qs v (fun b => Ok (attach_ b d)) (fun _ => 0%N) (fun _ => known d) Iw Rw).
+    intros b q Ib Rb. destruct (attach_ok b d D) as [I E]. apply okun_zero.
     exists (attach_ b d). split; [reflexivity|split; [exact I|]]. eapply ref_eq; [exact E|apply cr_refl].
   - (* OAsg *)
     pose proof (get2_sim w qs v x Iw Rw) as G. unfold on2.
@@ -661,40 +984,53 @@ Proof.
     destruct G as (b & s & Hb & Hs & Ib & Is & Rb & Rs). rewrite Hb, Hs. cbn [bind].
     destruct (v =? x) eqn:Evx.
     + apply Nat.eqb_eq in Evx. subst x. assert (p = q) by congruence. subst p.
+      replace (fitsN (len q)) with true.
+      2:{ symmetry. apply fitsN_true. unfold len. rewrite (ref_len b q Ib Rb). apply inv_small; exact Ib. }
       exists w, None. split; [reflexivity|split; [exact Iw|split; [|right; reflexivity]]].
-      replace (upd v q qs) with qs; [exact Rw|].
-      clear -Eq. revert v Eq. induction qs as [|h t IH]; intros [|v] Eq; cbn [upd nth_error] in *; try discriminate.
-      * congruence.
-      * f_equal. apply IH. exact Eq.
-    + rewrite win_inv by exact Is. cbn [bind]. apply ret1_sim; auto.
-      pose proof (assign_ok b (view s) Ib) as H. finish_op H.
-      rewrite <- exposed_inv by exact Is. exact Rs.
+      rewrite upd_same by exact Eq. exact Rw.
+    + rewrite win_inv by exact Is. cbn [bind]. apply sim_of_okun; auto.
+      eapply okun_ref; [|eapply okun_need; [|apply (assign_ok b (view s) Ib)]].
+      * rewrite <- exposed_inv by exact Is. exact Rs.
+      * unfold len. rewrite (ref_len s p Is Rs). f_equal. apply view_length; exact Is.
   - (* OAssign *)
-    apply (on1_sim w qs v (fun b => assign_ b (known d)) (fun _ => known d) Iw Rw).
-    intros b q Ib Rb. pose proof (assign_ok b (known d) Ib) as H. finish_op H. apply cr_refl.
+    apply (on1_sim w qs v (fun b => assign_ b (known d)) (fun _ => N.of_nat (length d)) (fun _ => known d) Iw Rw).
+    intros b q Ib Rb. eapply okun_ref; [apply cr_refl|].
+    eapply okun_need; [|apply (assign_ok b (known d) Ib)]. rewrite known_length. reflexivity.
   - (* OPrepend *)
-    apply (on1_sim w qs v (fun b => prepend_ b (known d)) (fun q => known d ++ q) Iw Rw).
-    intros b q Ib Rb. pose proof (prepend_ok b (known d) Ib) as H. finish_op H.
-    apply Forall2_app; [apply cr_refl|exact Rb].
+    apply (on1_sim w qs v (fun b => prepend_ b (known d)) (fun q => (N.of_nat (length d) + len q)%N) (fun q => known d ++ q) Iw Rw).
+    intros b q Ib Rb. eapply okun_ref; [|eapply okun_need; [|apply (prepend_ok b (known d) Ib)]].
+    + apply Forall2_app; [apply cr_refl|exact Rb].
+    + unfold len. rewrite known_length, (ref_len b q Ib Rb). lia.
+    + rewrite known_length. exact D.
   - (* OPrependB *)
     pose proof (get2_sim w qs v x Iw Rw) as G. unfold on2.
     destruct (nth_error qs v) as [q|] eqn:Eq; [destruct (nth_error qs x) as [p|] eqn:Ep|];
       [|exact (G _)|exact (G _)].
     destruct G as (b & s & Hb & Hs & Ib & Is & Rb & Rs). rewrite Hb, Hs. cbn [bind].
     rewrite win_inv by exact Is. cbn [bind].
+    pose proof (view_length s Is) as Hvs. pose proof (inv_small s Is) as Hss. unfold size in Hss.
     destruct (v =? x) eqn:Evx.
-    + destruct (ctor_data_ok (view s)) as (t & Ht & It & Et). rewrite Ht. cbn [bind].
-      rewrite win_inv by exact It. cbn [bind]. apply ret1_sim; auto.
-      pose proof (prepend_ok b (view t) Ib) as H. finish_op H.
-      apply Forall2_app; [|exact Rb].
-      rewrite <- exposed_inv by exact It. rewrite Et. rewrite <- exposed_inv by exact Is. exact Rs.
-    + apply ret1_sim; auto.
-      pose proof (prepend_ok b (view s) Ib) as H. finish_op H.
-      apply Forall2_app; [|exact Rb]. rewrite <- exposed_inv by exact Is. exact Rs.
+    + pose proof (ctor_data_ok (view s)) as C. unfold okun in C.
+      replace (fitsN (N.of_nat (length (view s)))) with true in C by (symmetry; apply fitsN_true; lia).
+      destruct C as (t & Ht & It & Et). rewrite Ht. cbn [bind].
+      rewrite win_inv by exact It. cbn [bind]. apply sim_of_okun; auto.
+      assert (Evt : view t = view s) by (rewrite <- exposed_inv by exact It; exact Et).
+      rewrite Evt.
+      eapply okun_ref; [|eapply okun_need; [|apply (prepend_ok b (view s) Ib)]].
+      * apply Forall2_app; [|exact Rb]. rewrite <- exposed_inv by exact Is. exact Rs.
+      * unfold len. rewrite (ref_len b q Ib Rb), (ref_len s p Is Rs). unfold size in *. lia.
+      * lia.
+    + apply sim_of_okun; auto.
+      eapply okun_ref; [|eapply okun_need; [|apply (prepend_ok b (view s) Ib)]].
+      * apply Forall2_app; [|exact Rb]. rewrite <- exposed_inv by exact Is. exact Rs.
+      * unfold len. rewrite (ref_len b q Ib Rb), (ref_len s p Is Rs). unfold size in *. lia.
+      * lia.
   - (* OAppend *)
-    apply (on1_sim w qs v (fun b => append_ b (known d)) (fun q => q ++ known d) Iw Rw).
-    intros b q Ib Rb. pose proof (append_ok b (known d) Ib) as H. finish_op H.
-    apply Forall2_app; [exact Rb|apply cr_refl].
+    apply (on1_sim w qs v (fun b => append_ b (known d)) (fun q => (len q + N.of_nat (length d))%N) (fun q => q ++ known d) Iw Rw).
+    intros b q Ib Rb. eapply okun_ref; [|eapply okun_need; [|apply (append_ok b (known d) Ib)]].
+    + apply Forall2_app; [exact Rb|apply cr_refl].
+    + unfold len. rewrite known_length, (ref_len b q Ib Rb). lia.
+    + rewrite known_length. exact D.
   - (* OAppendB *)
     pose proof (get2_sim w qs v x Iw Rw) as G. unfold on2.
     destruct (nth_error qs v) as [q|] eqn:Eq; [destruct (nth_error qs x) as [p|] eqn:Ep|];
@@ -702,33 +1038,47 @@ Proof.
     destruct G as (b & s & Hb & Hs & Ib & Is & Rb & Rs). rewrite Hb, Hs. cbn [bind].
     destruct (v =? x) eqn:Evx.
     + apply Nat.eqb_eq in Evx. subst x. assert (p = q) by congruence. subst p.
-      apply ret1_sim; auto.
-      pose proof (append_self_ok b Ib) as H. finish_op H.
-      apply Forall2_app; exact Rb.
-    + rewrite win_inv by exact Is. cbn [bind]. apply ret1_sim; auto.
-      pose proof (append_ok b (view s) Ib) as H. finish_op H.
-      apply Forall2_app; [exact Rb|]. rewrite <- exposed_inv by exact Is. exact Rs.
+      apply sim_of_okun; auto.
+      eapply okun_ref; [|eapply okun_need; [|apply (append_self_ok b Ib)]].
+      * apply Forall2_app; exact Rb.
+      * unfold len. rewrite (ref_len b q Ib Rb). lia.
+    + rewrite win_inv by exact Is. cbn [bind]. apply sim_of_okun; auto.
+      pose proof (view_length s Is) as Hvs. pose proof (inv_small s Is) as Hss. unfold size in Hss.
+      eapply okun_ref; [|eapply okun_need; [|apply (append_ok b (view s) Ib)]].
+      * apply Forall2_app; [exact Rb|]. rewrite <- exposed_inv by exact Is. exact Rs.
+      * unfold len. rewrite (ref_len b q Ib Rb), (ref_len s p Is Rs). unfold size in *. lia.
+      * lia.
   - (* OResize *)
-    apply (on1_sim w qs v (fun b => resize_ b n) (fun q => q_resize q n) Iw Rw).
-    intros b q Ib Rb. destruct (resize_ok b n Ib) as (b' & t & H1 & H2 & H3 & H4 & _).
-    exists b'. split; [exact H1|split; [exact H2|]]. eapply ref_eq; [exact H3|].
+    apply (on1_sim w qs v (fun b => resize_ b n) (fun _ => n) (fun q => q_resize q (N.to_nat n)) Iw Rw).
+    intros b q Ib Rb. eapply okun_imp; [|apply (resize_ok b n Ib)].
+    intros b' (t & H2 & H3 & H4 & _). split; [exact H2|]. eapply ref_eq; [exact H3|].
     apply cr_resize; [exact Rb|]. rewrite exposed_length by exact Ib. exact H4.
   - (* OReserve *)
-    apply (on1_sim w qs v (fun b => reserve_ b n) (fun q => q) Iw Rw).
-    intros b q Ib Rb. pose proof (reserve_ok b n Ib) as H. finish_op H. exact Rb.
+    apply (on1_sim w qs v (fun b => reserve_ b n) (fun _ => n) (fun q => q) Iw Rw).
+    intros b q Ib Rb. eapply okun_ref; [exact Rb|apply reserve_ok; exact Ib].
   - (* ORemoveFront *)
-    apply (on1_sim w qs v (fun b => remove_front v b n) (fun q => skipn n q) Iw Rw).
-    intros b q Ib Rb. pose proof (remove_front_ok v b n Ib) as H. finish_op H. apply F2_skipn; exact Rb.
+    apply (on1_sim w qs v (fun b => remove_front v b n) (fun _ => 0%N)
+             (fun q => if (len q <=? n)%N then [] else skipn (N.to_nat n) q) Iw Rw).
+    intros b q Ib Rb. apply okun_zero.
+    destruct (remove_front_ok v b n Ib) as (b' & H1 & H2 & H3).
+    exists b'. split; [exact H1|split; [exact H2|]]. eapply ref_eq; [exact H3|].
+    unfold len. rewrite (ref_len b q Ib Rb).
+    destruct (N.of_nat (size b) <=? n)%N; [constructor|apply F2_skipn; exact Rb].
   - (* ORemoveBack *)
-    apply (on1_sim w qs v (fun b => remove_back v b n) (fun q => firstn (length q - n) q) Iw Rw).
-    intros b q Ib Rb. pose proof (remove_back_ok v b n Ib) as H. finish_op H.
-    rewrite <- (F2_length _ _ _ Rb), exposed_length by exact Ib. apply F2_firstn; exact Rb.
+    apply (on1_sim w qs v (fun b => remove_back v b n) (fun _ => 0%N)
+             (fun q => if (len q <=? n)%N then [] else firstn (length q - N.to_nat n) q) Iw Rw).
+    intros b q Ib Rb. apply okun_zero.
+    destruct (remove_back_ok v b n Ib) as (b' & H1 & H2 & H3).
+    exists b'. split; [exact H1|split; [exact H2|]]. eapply ref_eq; [exact H3|].
+    unfold len. rewrite (ref_len b q Ib Rb).
+    destruct (N.of_nat (size b) <=? n)%N; [constructor|apply F2_firstn; exact Rb].
   - (* OClear *)
-    apply (on1_sim w qs v (fun b => clear_ b) (fun _ => []) Iw Rw).
-    intros b q Ib Rb. pose proof (clear_ok b Ib) as H. finish_op H. constructor.
+    apply (on1_sim w qs v (fun b => clear_ b) (fun _ => 0%N) (fun _ => []) Iw Rw).
+    intros b q Ib Rb. apply okun_zero. destruct (clear_ok b Ib) as (b' & H1 & H2 & H3).
+    exists b'. split; [exact H1|split; [exact H2|]]. eapply ref_eq; [exact H3|constructor].
   - (* OFree *)
-    apply (on1_sim w qs v (fun b => Ok (free_ v b)) (fun _ => []) Iw Rw).
-    intros b q Ib Rb. destruct (free_ok v b) as [I E].
+    apply (on1_sim w qs v (fun b => Ok (free_ v b)) (fun _ => 0%N) (fun _ => []) Iw Rw).
+    intros b q Ib Rb. destruct (free_ok v b) as [I E]. apply okun_zero.
     exists (free_ v b). split; [reflexivity|split; [exact I|]]. eapply ref_eq; [exact E|constructor].
   - (* OSwap *)
     pose proof (get2_sim w qs v x Iw Rw) as G.
@@ -746,14 +1096,32 @@ Proof.
     rewrite !win_inv by assumption. cbn [bind].
     exists w, (q_eq (view b) (view s)). split; [reflexivity|split; [exact Iw|split; [exact Rw|]]].
     rewrite <- !exposed_inv by assumption. apply q_eq_ref; assumption.
+  - (* OAppendAt *)
+    apply (on1at_sim w qs v off n (fun b => append_at b off n) (fun q => (len q + N.of_nat n)%N)
+             (fun q => q ++ q_part q off n) Iw Rw).
+    intros b q Ib Rb Hoff. eapply okun_ref; [|eapply okun_need; [|apply (append_at_ok b off n Ib Hoff)]].
+    + apply Forall2_app; [exact Rb|apply F2_slice; exact Rb].
+    + unfold len. rewrite (ref_len b q Ib Rb). lia.
+  - (* OAssignAt *)
+    apply (on1at_sim w qs v off n (fun b => assign_at b off n) (fun _ => N.of_nat n)
+             (fun q => q_part q off n) Iw Rw).
+    intros b q Ib Rb Hoff. eapply okun_ref; [|apply (assign_at_ok b off n Ib Hoff)].
+    apply F2_slice; exact Rb.
+  - (* OPrependAt *)
+    apply (on1at_sim w qs v off n (fun b => prepend_at b off n) (fun q => (N.of_nat n + len q)%N)
+             (fun q => q_part q off n ++ q) Iw Rw).
+    intros b q Ib Rb Hoff. eapply okun_ref; [|eapply okun_need; [|apply (prepend_at_ok b off n Ib Hoff)]].
+    + apply Forall2_app; [apply F2_slice; exact Rb|exact Rb].
+    + unfold len. rewrite (ref_len b q Ib Rb). lia.
 Qed.
 
 (* ---- histories ------------------------------------------------------------------------------ *)
 
-Definition run_goal (r : res (world * list (option bool))) (s : option (list queue * list (option bool))) : Prop :=
+Definition run_goal (r : res (world * list (option bool))) (s : sres (list queue * list (option bool))) : Prop :=
   match s with
-  | Some (qs', rs') => exists w' rs, r = Ok (w', rs) /\ winv w' /\ wref w' qs' /\ Forall2 ans_ref rs rs'
-  | None => r = Err BadArg
+  | SOk (qs', rs') => exists w' rs, r = Ok (w', rs) /\ winv w' /\ wref w' qs' /\ Forall2 ans_ref rs rs'
+  | SReject => r = Err BadArg
+  | SUnsat => r = Err AllocFail
   end.
 
 Lemma run_sim_lemma ops : forall w qs, winv w -> wref w qs -> run_goal (run w ops) (spec_run qs ops).
@@ -761,14 +1129,16 @@ Proof.
   induction ops as [|o rest IH]; intros w qs Iw Rw; cbn [run spec_run].
   - exists w, []. auto.
   - pose proof (step_sim_lemma w qs o Iw Rw) as S. unfold sim_goal in S.
-    destruct (spec_step qs o) as [[qs1 a1']|].
+    destruct (spec_step qs o) as [[qs1 a1']| |].
     + destruct S as (w1 & a1 & H1 & Iw1 & Rw1 & Ha1). rewrite H1. cbn [bind fst snd].
       pose proof (IH w1 qs1 Iw1 Rw1) as R. unfold run_goal in R.
-      destruct (spec_run qs1 rest) as [[qs2 rs2']|].
+      destruct (spec_run qs1 rest) as [[qs2 rs2']| |].
       * destruct R as (w2 & rs2 & H2 & Iw2 & Rw2 & Hrs). rewrite H2. cbn [bind fst snd].
         exists w2, (a1 :: rs2). split; [reflexivity|split; [exact Iw2|split; [exact Rw2|]]].
         constructor; assumption.
       * rewrite R. reflexivity.
+      * rewrite R. reflexivity.
+    + rewrite S. reflexivity.
     + rewrite S. reflexivity.
 Qed.
 
@@ -782,8 +1152,9 @@ Inductive reachable : world -> Prop :=
 Lemma step_inv_lemma w o w' a : winv w -> step w o = Ok (w', a) -> winv w'.
 Proof.
   intros Iw H. pose proof (step_sim_lemma w (map exposed w) o Iw (wref_self w)) as S. unfold sim_goal in S.
-  destruct (spec_step (map exposed w) o) as [[qs1 a1']|].
+  destruct (spec_step (map exposed w) o) as [[qs1 a1']| |].
   - destruct S as (w1 & a1 & H1 & Iw1 & _). congruence.
+  - congruence.
   - congruence.
 Qed.
 
@@ -792,12 +1163,15 @@ Proof.
   induction 1 as [|w o w' a Hr IH Hs]; [constructor|]. eapply step_inv_lemma; eassumption.
 Qed.
 
-Lemma step_safe_lemma w o e : winv w -> step w o = Err e -> e = BadArg /\ spec_step (map exposed w) o = None.
+(* the only errors: a history without meaning, and a request that cannot be satisfied *)
+Lemma step_safe_lemma w o e : winv w -> step w o = Err e ->
+  (e = BadArg /\ spec_step (map exposed w) o = SReject) \/ (e = AllocFail /\ spec_step (map exposed w) o = SUnsat).
 Proof.
   intros Iw H. pose proof (step_sim_lemma w (map exposed w) o Iw (wref_self w)) as S. unfold sim_goal in S.
-  destruct (spec_step (map exposed w) o) as [[qs1 a1']|].
+  destruct (spec_step (map exposed w) o) as [[qs1 a1']| |].
   - destruct S as (w1 & a1 & H1 & _). congruence.
-  - split; [congruence|reflexivity].
+  - left. split; [congruence|reflexivity].
+  - right. split; [congruence|reflexivity].
 Qed.
 
 Lemma run_reachable_lemma ops : forall w w' rs, reachable w -> run w ops = Ok (w', rs) -> reachable w'.
@@ -810,12 +1184,14 @@ Proof.
     eapply IH; [|exact E2]. eapply reach_step; eassumption.
 Qed.
 
-Lemma run_safe_lemma ops e : run [] ops = Err e -> e = BadArg /\ spec_run [] ops = None.
+Lemma run_safe_lemma ops e : run [] ops = Err e ->
+  (e = BadArg /\ spec_run [] ops = SReject) \/ (e = AllocFail /\ spec_run [] ops = SUnsat).
 Proof.
   intro H. pose proof (run_sim_lemma ops [] [] (Forall_nil _) (Forall2_nil _)) as R. unfold run_goal in R.
-  destruct (spec_run [] ops) as [[qs rs]|].
+  destruct (spec_run [] ops) as [[qs rs]| |].
   - destruct R as (w' & rs' & H1 & _). congruence.
-  - split; [congruence|reflexivity].
+  - left. split; [congruence|reflexivity].
+  - right. split; [congruence|reflexivity].
 Qed.
 
 Lemma terminator_lemma w b : reachable w -> In b w -> owns b = true ->
@@ -826,18 +1202,19 @@ Proof.
   unfold winv in Iw. rewrite Forall_forall in Iw. pose proof (Iw b Hin) as I.
   unfold inv in I. unfold owns in Ho. unfold after_end.
   destruct (own b) as [a|]; [|discriminate].
-  destruct I as (Hw & Hl & Hse & Hec & Ht). exists a. rewrite Hw.
+  destruct I as (Hw & Hl & Hse & Hec & Ht & Hsm). exists a. rewrite Hw.
   repeat split; try assumption; lia.
 Qed.
 
 (* the representation invariant, spelled out *)
 Lemma rep_lemma w b : reachable w -> In b w ->
   match own b with
-  | Some a => wb b = BOwn /\ length a = capf b + 1 /\ start b <= stop b /\ stop b <= capf b
+  | Some a => wb b = BOwn /\ length a = capf b + 1 /\ start b <= stop b /\ stop b <= capf b /\
+              (N.of_nat (capf b) < max_bytes)%N
   | None => capf b = 0 /\
             match wb b with
             | BOwn => False
-            | BReg r => start b <= stop b /\ stop b <= length r
+            | BReg r => start b <= stop b /\ stop b <= length r /\ (N.of_nat (length r) < max_bytes)%N
             | BCap _ => start b = 0 /\ stop b = 0
             end
   end.
